@@ -195,11 +195,15 @@ def equivariance(ck, RULE, I, name, r1, entry):
             if not entry.scalar_result and entry.per_event_inputs:
                 # batch reductions feeding a per-event output
                 bad = []
+                from .c10 import permutation_round_trips
+                exempt = permutation_round_trips(g, outs)
                 for o in outs:
                     co = lc.of(o)
                     if not is_def(co):
                         continue
                     for n in walk([o]):
+                        if n.id in exempt:
+                            continue        # evaluation order permuted and provably restored
                         q = ext_name(n)
                         s = X.np_short(q) if q else None
                         if s in REDUCERS and len(n.args) > 1 and is_def(lc.of(n.args[1])) and \
